@@ -6,6 +6,7 @@ import (
 	"os"
 
 	"verif/internal/build"
+	"verif/internal/gen"
 	"verif/internal/harness"
 )
 
@@ -19,11 +20,12 @@ type Spec struct {
 var Registry = map[string]Spec{
 	"C19": {Want: build.Want{WorkerInst: true}, Run: RunC19},
 	"C02": {Want: build.Want{WorkerInst: true}, Run: RunC02},
+	"C08": {Want: build.Want{StockCLIs: true, InstCLIs: true}, Run: RunC08},
 	"C09": {Want: build.Want{WorkerInst: true, WorkerRace: true}, Run: RunC09},
 }
 
-// Transparency: filled in by procsim checks.
-func Transparency(e *Env) error { return nil }
+// Transparency is set by transparency.go.
+var Transparency = func(e *Env) error { return nil }
 
 // Replay re-executes a replay file against a fresh build of /repo.
 func Replay(verifDir, repoDir, path string) (int, error) {
@@ -69,3 +71,20 @@ var replayers = map[string]func(e *Env, raw []byte) (string, any, error){}
 
 // Selftest is filled in by selftest.go.
 var Selftest = func(verifDir, repoDir string) error { return fmt.Errorf("not built") }
+
+// GenCase renders the case a check generates for one run (debugging aid).
+func GenCase(prop string, seed, run int64) string {
+	var v any
+	switch prop {
+	case "C08":
+		v = genC08(gen.New(seed, "C08", run))
+	case "C19":
+		v = genC19(gen.New(seed, "C19", run), 8)
+	case "C02":
+		v = genC02(gen.New(seed, "C02", run), 3)
+	default:
+		return "no generator for " + prop
+	}
+	js, _ := json.MarshalIndent(v, "", " ")
+	return string(js)
+}
